@@ -139,7 +139,10 @@ VariantRefBase<TDerived>::operator[](const TString& key) const {
 template <typename TDerived>
 template <typename TConverter, typename T>
 inline bool VariantRefBase<TDerived>::doSet(T&& value, false_type) const {
-  TConverter::toJson(value, getOrCreateVariant());
+  auto variant = getOrCreateVariant();
+  if (variant.isUnbound())
+    return false;
+  TConverter::toJson(value, variant);
   auto resources = getResourceManager();
   return resources && !resources->overflowed();
 }
